@@ -8,6 +8,7 @@ Driver engine "loader": from an abstract Output and a normalised load request co
 -/
 import OsyrisModel.Loader
 import OsyrisModel.Generated.UnitsLib
+import OsyrisModel.Hilbert
 open Lean
 
 namespace Osyris.LoadEngine
@@ -88,7 +89,16 @@ def mkCase (lib : List LibEntry) (o : Output) (rq : Request) : Case :=
       | none => [],
     meshOn := rq.meshOn,
     preds := rq.preds,
-    cpuList := rq.cpuList.getD cpus }
+    cpuList := match rq.cpuList with
+      | some l => l
+      | none =>
+        -- `AmrReader.initialize` runs the Hilbert pre-selection only when the mesh group is loaded
+        if !rq.meshOn then cpus else
+        match Hilbert.hilbertCpuList Hilbert.Generated.table o.ordering rq.preds (o.boxlen * (scaleOf lib o "x").factor)
+            o.levelmax (lmaxOf o rq.preds) o.ncpu o.ndim (o.boundKeys.map fun q => q.floor.toNat) (!rq.preds.isEmpty)
+            (minCube := o.levelmin) with
+        | some l => l
+        | none => cpus }
 
 /-! ### Spec: leaves of the truncated tree -/
 
@@ -268,7 +278,7 @@ def run (j : Json) : Json :=
           ("part_scale", scaleJson Generated.unitsLib o (part.map (·.1))),
           ("mesh_merges", mergesJson mg.1), ("part_merges", mergesJson pmg.1),
           ("ncells", Json.num (JsonNumber.fromNat st.ncells)), ("nparticles", Json.num (JsonNumber.fromNat st.nparticles)),
-          ("lmax", Json.num (JsonNumber.fromNat cs.lmax)),
+          ("lmax", Json.num (JsonNumber.fromNat cs.lmax)), ("cpu_list", natsToJson cs.cpuList),
           ("logs", Json.arr (st.logs.map fun l => Json.arr #[Json.str l.1, logJson l.2]).toArray)] ++
           sinkJ Generated.unitsLib ++ filesJ)
   | _, _ => errJson .badOp
